@@ -4,9 +4,10 @@ import json, os, re, subprocess, sys, time, hashlib, glob
 
 VERIF = os.path.dirname(os.path.dirname(os.path.abspath(__file__)))
 LEAN = os.path.join(VERIF, "lean")
-HARNESS = os.path.join(VERIF, "harness")
+HARNESS = os.environ.get("VERIF_HARNESS", os.path.join(VERIF, "harness"))   # overridden only by tools/mutrun.sh
 DRIVER = os.path.join(LEAN, ".lake", "build", "bin", "driver")
-REPO = "/repo"
+REPO = os.environ.get("VERIF_REPO", "/repo")                            # overridden only by tools/mutrun.sh
+OUT = os.environ.get("VERIF_OUT", VERIF)                                  # evidence/ and replays/ live here
 ALLOWED_AXIOMS = {"propext", "Classical.choice", "Quot.sound"}
 ENV = dict(os.environ, CARGO_NET_OFFLINE="true")
 
@@ -302,7 +303,7 @@ def report_broken(ctx, what, detail):
 
 
 def write_replay(ctx, payload, tag):
-    d = os.path.join(VERIF, "replays")
+    d = os.path.join(OUT, "replays")
     os.makedirs(d, exist_ok=True)
     p = os.path.join(d, "%s-%s-%s.json" % (ctx.prop, ctx.seed, tag))
     payload = dict(payload, property=ctx.prop, seed=ctx.seed, tier=ctx.tier,
@@ -354,8 +355,8 @@ def finish(ctx, level_rule, checker_cmd, trusted_base, extra=None):
         "wall_s": round(time.time() - ctx.t0, 2),
         "violations": len(ctx.violations) + (1 if (ctx.broken and not ctx.violations) else 0),
     }
-    os.makedirs(os.path.join(VERIF, "evidence"), exist_ok=True)
-    json.dump(ev, open(os.path.join(VERIF, "evidence", ctx.prop + ".json"), "w"), indent=1,
+    os.makedirs(os.path.join(OUT, "evidence"), exist_ok=True)
+    json.dump(ev, open(os.path.join(OUT, "evidence", ctx.prop + ".json"), "w"), indent=1,
               ensure_ascii=False)
     print("%s %s: %d obligations, %d discharged, %d cases, %d violations, %d known findings, %.1fs" % (
         ctx.prop, ctx.tier, len(ctx.obligations), len(ctx.discharged), ctx.evaluations,
